@@ -11,7 +11,7 @@ from netqasm.lang.parsing.binary import deserialize
 from netqasm.lang.parsing.text import parse_text_subroutine
 from netqasm.lang.subroutine import Subroutine
 
-PATHS = ("direct", "text", "text+nv-transpiler", "setter", "instantiate", "template", "sdk")
+PATHS = ("direct", "text", "text+nv-transpiler", "setter", "instantiate", "template", "sdk", "sdk-array-index")
 CLASSICAL = ("jmp", "bez", "bnz", "beq", "bne", "blt", "bge", "set", "add", "sub", "addm", "subm", "store", "load", "lea", "undef", "array", "ret_reg", "ret_arr")
 ASSUME = [
     "one out-of-range operand per vector, the others at in-range base values",
@@ -51,7 +51,7 @@ def attempt(path: str, v, cls, val):
         ops[v["pos"] - 1] = (ops[v["pos"] - 1] // 16, val)
     else:
         ops[v["pos"] - 1] = val
-    if path in ("setter", "instantiate", "template", "sdk"):
+    if path in ("setter", "instantiate", "template", "sdk", "sdk-array-index"):
         return attempt_other(path, v, cls, val, ops)
     try:
         instr = isa.build(cls, v["shape"], ops)
@@ -80,6 +80,8 @@ def applicable(path: str, v) -> bool:
         return v["kind"] == "app"
     if path == "template":
         return v["kind"] == "imm" and v["shape"] == "RegImmImm"
+    if path == "sdk-array-index":
+        return v["fl"] == "vanilla" and v["kind"] == "int" and v["mn"] == "set"
     if path == "sdk":
         return (v["kind"] == "app") or (v["fl"] == "vanilla" and ((v["kind"] == "imm" and v["mn"] in ("rot_x", "rot_y", "rot_z")) or (v["kind"] == "int" and v["mn"] == "set")))
     return False
@@ -122,6 +124,10 @@ def attempt_other(path, v, cls, val, ops):
                     q = Qubit(conn)
                     n, d = (val, 2) if v["pos"] == 2 else (1, val)
                     getattr(q, {"rot_x": "rot_X", "rot_y": "rot_Y", "rot_z": "rot_Z"}[v["mn"]])(n=n, d=d)
+                elif path == "sdk-array-index":
+                    # the value as a CONSTANT INDEX of an array entry (materialised by a `set` like any other constant)
+                    arr = conn.new_array(2, init_values=[0, 1])
+                    arr.get_future_index(val).add(1)
                 else:
                     arr = conn.new_array(2, init_values=[val, 1])
                     arr.get_future_index(1).add(val)
